@@ -201,6 +201,20 @@ pub fn c08(c: &Case, second: Option<&Rec>, expect_second: bool, rep: &mut Report
             rep.violation(c, &format!("C08/{}/{}", label, diff.0), &format!("{}: {}", what, diff.1), &[("out.emit.wasm", base), (&format!("out.{}.wasm", label), o)]);
         }
     }
+    // every other emission of the scenario (after the GC pass, after edits, ...) is a function of the input as well:
+    // the second process must have produced the same bytes
+    if let Some(r2) = second {
+        for label in ["gc", "gc-fix", "gc2", "addimp", "addimp-fix", "reedit", "reedit_fresh", "emit2", "fix", "shift", "emptied"] {
+            if let (Some(a), Some(b)) = (end.get(&format!("out.{}", label)), r2.get(&format!("out.{}", label))) {
+                rep.count("later-emissions-compared-across-processes", 1);
+                compared += 1;
+                if a != b {
+                    let diff = describe_diff(a, b);
+                    rep.violation(c, &format!("C08/proc2-{}/{}", label, diff.0), &format!("the emission labelled {} differs between two processes: {}", label, diff.1), &[(&format!("out.{}.a.wasm", label), a), (&format!("out.{}.b.wasm", label), b)]);
+                }
+            }
+        }
+    }
     // same logical module reached by (emit, edit, emit) and by (fresh parse, same edit, emit)
     if let (Some(a), Some(b)) = (end.get("out.reedit"), end.get("out.reedit_fresh")) {
         rep.count("compared-edit-after-emit", 1);
